@@ -237,6 +237,23 @@ CLAIMED = {
         '(action: C06); jax.tree / hstack / vstack / block_diag specs compared with the real functions on every case.',
         'DESIGN.md section 4, C10',
     ),
+    'C05': (
+        'Coq proof, for all expression trees, that the declared output structure is what application returns: at value '
+        'level (tree shape and leaf sizes, any carrier, with definedness inside well-formed composites) by induction from a '
+        'leaf honesty fact, and at abstract-evaluation level (tree, leaf shapes and dtypes over the C20 promotion lattice: '
+        'the model of jax.eval_shape) under the explicit boolean guards params_not_wider and dtypes_available; structures of '
+        'compositions, sums, blocks, lazy duals and transposes, sizes, promoted dtype = lattice join; leaf facts '
+        'discharged for the executable leaf rules and for measured-matrix leaves; differential correspondence in both x64 modes',
+        'out_structure_honest, application_defined, sizes_agree, block_sizes, promoted_dtype_is_join, '
+        'out_structure_honest_dtypes, declared_is_evaluated, composite_structs, transpose_structs, exec_leaf_honest/defined: '
+        '17 obligations closed under the global context. Tie: C-tie on every class x layouts x data dtype {f32,f64,i32,mixed} '
+        'x parameter dtype x x64 on/off: out_structure() vs eval_shape vs actual mv(x) vs model (1336 quick / 5460 thorough).',
+        'Partial: structures of REDUCED and INVERTED operators (reduce_structs, inverse_structs) are checked by '
+        'correspondence only. Default-out_structure leaves carry the real declaration in the term; JAX eval_shape / '
+        'result_type / linear_transpose trusted; cases outside the guards (wider parameters, dtype unavailable in the mode) '
+        'are counted separately, not alarmed on.',
+        'DESIGN.md section 4, C05',
+    ),
 }
 
 PENDING_REASON = 'check not built yet in this session (work in progress; see DESIGN.md section 8 for the order of work)'
